@@ -69,6 +69,10 @@ pub struct Restart {
     pub shutdown_at: u64,
     pub restart_at: u64,
     pub tasks: Vec<Task>,
+    /// the handler that requests the shutdown first arms a timer of this length (a task that is cancelled by the
+    /// shutdown): a deadline of the old incarnation that may lie after the restart
+    #[serde(default)]
+    pub watchdog_ns: Option<u64>,
 }
 
 #[derive(Debug, Clone, Serialize, Deserialize, PartialEq)]
@@ -248,6 +252,11 @@ impl Module for Scripted {
             }
         } else if msg.header().kind == CTRL {
             if let Some(r) = &self.restart {
+                if let Some(d) = r.watchdog_ns {
+                    tokio::spawn(async move {
+                        sleep(Duration::from_nanos(d)).await;
+                    });
+                }
                 current().shutdow_and_restart_at(SimTime::from_duration(Duration::from_nanos(r.restart_at)));
             }
         }
@@ -602,7 +611,8 @@ pub fn gen_case(rng: &mut Rng, max_steps: usize) -> Case {
             let restart_at = shutdown_at + (1 + rng.below(2000)) * MS;
             mods.push((0..tasks).map(|_| gen_task_with(rng, max_steps, false)).collect());
             let n2 = 1 + rng.usize_below(4);
-            restarts.push(Some(Restart { shutdown_at, restart_at, tasks: (0..n2).map(|_| gen_task_with(rng, max_steps, false)).collect() }));
+            let watchdog_ns = if rng.chance(1, 2) { Some((restart_at - shutdown_at) + (1 + rng.below(3000)) * MS) } else { None };
+            restarts.push(Some(Restart { shutdown_at, restart_at, tasks: (0..n2).map(|_| gen_task_with(rng, max_steps, false)).collect(), watchdog_ns }));
         } else {
             mods.push((0..tasks).map(|_| gen_task(rng, max_steps)).collect());
             restarts.push(None);
